@@ -52,6 +52,10 @@ func (c *Ctx) errAxiom(body string) string {
 
 // buildQuery renders the SMT-LIB text of one obligation instance.
 func (x *Exec) buildQuery(o *Oblig, wantModel bool) string {
+	return x.buildQueryExtra(o, wantModel, "")
+}
+
+func (x *Exec) buildQueryExtra(o *Oblig, wantModel bool, extra string) string {
 	d := obligStore[o]
 	var body strings.Builder
 	for _, l := range d.decls {
@@ -68,6 +72,7 @@ func (x *Exec) buildQuery(o *Oblig, wantModel bool) string {
 		body.WriteString(o.Goal)
 		body.WriteString("))\n")
 	}
+	body.WriteString(extra)
 	b := body.String()
 	var sb strings.Builder
 	sb.WriteString("(set-option :produce-models true)\n(set-logic ALL)\n")
